@@ -9,7 +9,15 @@ for d in sorted(glob.glob(os.path.join(V, "seeded", "C*-*"))):
     pid = sid.split("-")[0]
     mp = os.path.join(d, "meta.json")
     meta = json.load(open(mp)) if os.path.exists(mp) else {}
-    res_file = "/tmp/mutres/%s.txt" % sid
+    res_file = "/tmp/mutres2/%s.txt" % sid          # final sweep on the strengthened checks
+    first_file = "/tmp/mutres/%s.txt" % sid       # first run (before any strengthening)
+    if os.path.exists(first_file) and "first_run" not in meta:
+        t0 = open(first_file).read()
+        c0 = re.findall(r"check=(C\d+) rc=(\d+)", t0)
+        if c0:
+            meta["first_run"] = ["%s rc=%s" % x for x in c0]
+    if not os.path.exists(res_file):
+        res_file = first_file
     outcome = meta.get("outcome")
     if os.path.exists(res_file):
         txt = open(res_file).read()
